@@ -87,6 +87,8 @@ Lemma sp_lfh_flags m : Z.land (fld lfh_off_Flags lfh_w_Flags (sp_lfh m)) 8 = if 
 Proof.
   lfh_field 2%nat. rewrite land8_mod16. unfold sp_flags. destruct (has_desc m); [apply land_lor_8|now rewrite Z.lor_0_r].
 Qed.
+Lemma sp_lfh_reader m : 0 <= m_reader m < 65536 -> fld lfh_off_ReaderVersion lfh_w_ReaderVersion (sp_lfh m) = m_reader m.
+Proof. intros H. lfh_field 1%nat. apply Z.mod_small. lia. Qed.
 Lemma sp_lfh_nlen m : zlen (m_name m) < 65536 -> fld lfh_off_FilenameLen lfh_w_FilenameLen (sp_lfh m) = zlen (m_name m).
 Proof. intros H. lfh_field 9%nat. apply Z.mod_small. pose proof (zlen_nonneg (m_name m)). lia. Qed.
 Lemma sp_lfh_elen m : zlen (sp_lextra m) < 65536 -> fld lfh_off_ExtraLen lfh_w_ExtraLen (sp_lfh m) = zlen (sp_lextra m).
@@ -129,7 +131,7 @@ Lemma total_size_local : forall md m pre post f pos,
   exists pos', total_size md (rd_bytes (pre ++ sp_local m ++ post)) pos f = Ok (sized_of m, pos')
                /\ pos' <= zlen pre + zlen (sp_local m).
 Proof.
-  intros md m pre post f pos (Hn & He & Hfl & Hcrc & Hd) Hoff Hcs Hus Hcr Hbig Hpos.
+  intros md m pre post f pos (Hn & He & Hfl & Hcrc & Hrd & Hd) Hoff Hcs Hus Hcr Hbig Hpos.
   pose proof (zlen_nonneg pre) as Hp0. pose proof (zlen_nonneg (m_name m)) as Hn0.
   pose proof (zlen_nonneg (sp_lextra m)) as He0. pose proof (zlen_nonneg (m_data m)) as Hd0.
   pose proof (zlen_nonneg (sp_desc m)) as Hdd0.
@@ -176,7 +178,8 @@ Proof.
     + cbn [desc_enc]. change (zlen (@nil Z)) with 0. lia.
   - (* 16-byte descriptor with signature *)
     change (dd_absent 8) with false. cbv iota.
-    destruct Hd as (Hus1 & Hcs1).
+    destruct Hd as (Hus1 & Hcs1 & Hamb).
+    rewrite (sp_lfh_reader m Hrd).
     unfold dd_lfh_size, dd_pos. rewrite Hoff, Hcs, !to_i64_small by lia.
     change fileHeaderLen with 30.
     replace (zlen pre + (30 + zlen (m_name m) + zlen (sp_lextra m)) + zlen (m_data m))
@@ -196,7 +199,10 @@ Proof.
     change (256 ^ 4) with 4294967296. rewrite ?Hus, ?Hcs.
     rewrite (Z.mod_small (m_usize m)), (Z.mod_small (zlen (m_data m))), (Z.mod_small (m_crc m)) by lia.
     unfold dd_is_64, u32. rewrite (Z.mod_small (m_usize m)), (Z.mod_small (zlen (m_data m))) by lia.
-    replace (m_usize m >=? 4294967295) with false by lia. rewrite !Z.eqb_refl. cbn [negb orb]. cbv iota.
+    replace (m_usize m >=? 4294967295) with false by lia. rewrite !Z.eqb_refl. cbn [negb orb].
+    unfold dd_ambiguous. cbn [negb andb].
+    replace ((m_usize m =? 0) && (m_reader m >=? 45)) with false by (destruct (Z.eqb_spec (m_usize m) 0) as [E0|E0]; [specialize (Hamb E0)|]; lia).
+    unfold dd_try_64. cbn [orb]. cbv iota.
     eexists. split.
     + cbn [bind fst snd]. rewrite ?zlen_enc_struct by (try reflexivity; wsok). cbn [sumz].
       unfold total_size_expr. rewrite ?to_i64_small by lia. f_equal. f_equal. f_equal; lia.
@@ -206,6 +212,7 @@ Proof.
   - (* 24-byte descriptor with signature *)
     change (dd_absent 8) with false. cbv iota.
     destruct Hd as (Hus1 & Hcs1 & Hok).
+    rewrite (sp_lfh_reader m Hrd).
     unfold dd_lfh_size, dd_pos. rewrite Hoff, Hcs, !to_i64_small by lia.
     change fileHeaderLen with 30.
     set (D := desc_enc D24 (m_crc m) (zlen (m_data m)) (m_usize m)) in *.
@@ -217,16 +224,22 @@ Proof.
     { rewrite R4 by (rewrite ?zlen_app, ?HD; change dataDescriptorLen with 16; pose proof (zlen_nonneg post); lia).
       f_equal; try reflexivity. }
     rewrite (rd_at_ok md _ p3 _ _ _ Ra) by lia. cbn [bind fst snd].
-    unfold D at 1 2 3. rewrite d24_first16.
-    change dd_off_Signature with (off_of 0 [4;4;4;4]). change dd_w_Signature with (nth 0 [4;4;4;4] 0).
-    change dd_off_UncompressedSize with (off_of 3 [4;4;4;4]). change dd_w_UncompressedSize with (nth 3 [4;4;4;4] 0).
-    change dd_off_CompressedSize with (off_of 2 [4;4;4;4]). change dd_w_CompressedSize with (nth 2 [4;4;4;4] 0).
-    rewrite !fld0 by (try reflexivity; try wsok; cbn; lia). cbn [nth].
-    change (dd_sig_bad (A_DD_SIG mod 256 ^ 4)) with false. cbv iota.
-    change (256 ^ 4) with 4294967296. rewrite ?Hus, ?Hcs.
-    assert (His : dd_is_64 (m_usize m) (zlen (m_data m)) (zlen (m_data m) / 4294967296 mod 4294967296) (zlen (m_data m) mod 4294967296) = true).
-    { unfold dd_is_64, u32. unfold dd24_ok in Hok. rewrite Z.eqb_refl. cbn [negb]. rewrite orb_false_r.
-      exact Hok. }
+    assert (G : fld dd_off_Signature dd_w_Signature (ztake 16 D) = A_DD_SIG /\
+                fld dd_off_UncompressedSize dd_w_UncompressedSize (ztake 16 D) = zlen (m_data m) / 4294967296 mod 4294967296 /\
+                fld dd_off_CompressedSize dd_w_CompressedSize (ztake 16 D) = zlen (m_data m) mod 4294967296).
+    { unfold D. rewrite d24_first16.
+      change dd_off_Signature with (off_of 0 [4;4;4;4]). change dd_w_Signature with (nth 0 [4;4;4;4] 0).
+      change dd_off_UncompressedSize with (off_of 3 [4;4;4;4]). change dd_w_UncompressedSize with (nth 3 [4;4;4;4] 0).
+      change dd_off_CompressedSize with (off_of 2 [4;4;4;4]). change dd_w_CompressedSize with (nth 2 [4;4;4;4] 0).
+      rewrite !fld0 by (try reflexivity; try wsok; cbn; lia). cbn [nth]. change (256 ^ 4) with 4294967296. auto. }
+    destruct G as (G1 & G2 & G3). rewrite G1, G2, G3.
+    change (dd_sig_bad A_DD_SIG) with false. cbv iota. rewrite ?Hus, ?Hcs.
+    set (is64 := dd_is_64 (m_usize m) (zlen (m_data m)) (zlen (m_data m) / 4294967296 mod 4294967296) (zlen (m_data m) mod 4294967296)).
+    assert (His : dd_try_64 is64 (dd_ambiguous is64 (m_usize m) (m_reader m)) = true).
+    { unfold dd_try_64, dd_ambiguous. destruct Hok as [Hok|(Hu0 & Hr45)].
+      - replace is64 with true; [reflexivity|]. symmetry. unfold is64, dd_is_64, u32. unfold dd24_ok in Hok. rewrite Z.eqb_refl. cbn [negb]. rewrite orb_false_r.
+        exact Hok.
+      - destruct is64; [reflexivity|]. cbn [negb orb andb]. rewrite Hu0. replace (m_reader m >=? 45) with true by lia. reflexivity. }
     rewrite His. cbv iota.
     replace (zlen pre + 30 + zlen (m_name m) + zlen (sp_lextra m) + zlen (m_data m) + 0 + dataDescriptorLen)
       with (zlen pre + 30 + zlen (m_name m) + zlen (sp_lextra m) + zlen (m_data m) + 16) by (change dataDescriptorLen with 16; lia).
@@ -248,7 +261,7 @@ Proof.
       change (256 ^ 8) with (2 ^ 64). change (256 ^ 4) with 4294967296.
       rewrite (Z.mod_small (m_usize m)), (Z.mod_small (zlen (m_data m))), (Z.mod_small (m_crc m)) by lia. auto. }
     destruct F as (F1 & F2 & F3). rewrite F1, F2, F3.
-    unfold dd_64_invalid. rewrite !Z.eqb_refl. cbn [negb orb]. cbv iota.
+    unfold dd_64_valid. rewrite !Z.eqb_refl. cbn [is_ok andb]. cbv iota.
     eexists. split.
     + cbn [bind fst snd]. rewrite ?HD.
       unfold total_size_expr. rewrite ?to_i64_small by lia. f_equal. f_equal. f_equal; lia.
@@ -274,11 +287,6 @@ Proof.
     rewrite (IH fs' (pre ++ sp_local m) post pos'); [reflexivity|assumption| |rewrite zlen_app; lia|rewrite zlen_app; lia].
     rewrite zlen_app. exact Hrest.
 Qed.
-
-(* ------------------------------------------------------------------ GetOriginalDirectory *)
-Lemma get_original_panics r d trim :
-  god_is_new (fld eocd_off_Signature eocd_w_Signature (d_end d)) = false -> get_original r d trim = Panic P_NIL.
-Proof. intros H. unfold get_original. rewrite H. reflexivity. Qed.
 
 (* ------------------------------------------------------------------ FindDirectory on APPNOTE end records *)
 Ltac sfield ws i :=
@@ -309,10 +317,10 @@ Lemma find_directory_plain : forall x count cdsize cdoff,
   20 <= zlen x -> 0 <= count < 65535 -> 0 <= cdsize < 4294967295 -> 0 <= cdoff < 4294967295 ->
   find_directory (rd_bytes (x ++ eocd_of count cdsize cdoff)) (zlen (x ++ eocd_of count cdsize cdoff)) = Ok cdoff.
 Proof.
-  intros x count cdsize cdoff Hx Hc Hs Ho. unfold find_directory, fd_pos.
+  intros x count cdsize cdoff Hx Hc Hs Ho. unfold find_directory, fd_pos, fd_short.
   change (directoryEndLen + directory64LocLen) with 42. change directoryEndLen with 22. change directory64LocLen with 20.
   set (E := eocd_of count cdsize cdoff). pose proof (eocd_len count cdsize cdoff) as HE. fold E in HE.
-  rewrite zlen_app, HE.
+  rewrite zlen_app, HE. replace (zlen x + 22 - 22 - 20 <? 0) with false by lia. cbn [andb]. cbv iota.
   assert (H2 : zlen (zdrop (zlen x - 20) x) = 20) by (rewrite zlen_zdrop; lia).
   assert (R : rd_bytes (x ++ E) (zlen x + 22 - 22 - 20) 42 = Ok (zdrop (zlen x - 20) x ++ E)).
   { rewrite rd_bytes_slice by (rewrite ?zlen_app, ?HE; lia). f_equal. unfold zslice.
@@ -351,8 +359,9 @@ Proof.
   pose proof (e64_len cr rd count cdsize cdoff) as H64. pose proof (l64_len (cdoff + cdsize)) as HL. pose proof (eocd_len c16 s32 o32) as HE.
   fold E64 in H64. fold L in HL. fold E in HE.
   assert (Hz : zlen z = zlen x + 98) by (unfold z; rewrite !zlen_app, H64, HL, HE; lia).
-  unfold find_directory, fd_pos.
+  unfold find_directory, fd_pos, fd_short.
   change (directoryEndLen + directory64LocLen) with 42. change directoryEndLen with 22. change directory64LocLen with 20.
+  pose proof (zlen_nonneg x). replace (zlen z - 22 - 20 <? 0) with false by lia. cbn [andb]. cbv iota.
   assert (R : rd_bytes z (zlen z - 22 - 20) 42 = Ok (L ++ E)).
   { replace (zlen z - 22 - 20) with (zlen x + 56) by lia. unfold z.
     replace (x ++ E64 ++ L ++ E) with ((x ++ E64) ++ (L ++ E) ++ []) by (now rewrite app_nil_r, <- !app_assoc).
@@ -376,4 +385,31 @@ Proof.
     sfield apn_e64_widths 9%nat. change (256 ^ 8) with (2 ^ 64). rewrite Z.mod_small by lia. now rewrite to_i64_small by lia.
   - unfold E, eocd_of. sfield apn_eocd_widths 6%nat. change (256 ^ 4) with 4294967296. rewrite Z.mod_small by lia.
     now rewrite Hplain.
+Qed.
+
+(* archives shorter than 42 bytes (e.g. the empty archive): the whole file is read into the end of the buffer *)
+Lemma find_directory_short : forall x count cdsize cdoff,
+  zlen x < 20 -> 0 <= count < 65535 -> 0 <= cdsize < 4294967295 -> 0 <= cdoff < 4294967295 ->
+  find_directory (rd_bytes (x ++ eocd_of count cdsize cdoff)) (zlen (x ++ eocd_of count cdsize cdoff)) = Ok cdoff.
+Proof.
+  intros x count cdsize cdoff Hx Hc Hs Ho. unfold find_directory, fd_pos, fd_short.
+  change (directoryEndLen + directory64LocLen) with 42. change directoryEndLen with 22. change directory64LocLen with 20.
+  set (E := eocd_of count cdsize cdoff). pose proof (eocd_len count cdsize cdoff) as HE. fold E in HE.
+  pose proof (zlen_nonneg x) as Hx0.
+  rewrite zlen_app, HE. replace (zlen x + 22 - 22 - 20 <? 0) with true by lia. replace (zlen x + 22 >=? 22) with true by lia. cbn [andb]. cbv iota.
+  assert (R : rd_bytes (x ++ E) 0 (42 + (zlen x + 22 - 22 - 20)) = Ok (x ++ E)).
+  { rewrite rd_bytes_slice by (rewrite ?zlen_app, ?HE; lia). f_equal. rewrite zslice_0. apply ztake_all. rewrite zlen_app, HE. lia. }
+  rewrite R. cbn [bind].
+  set (Z0 := zeros (- (zlen x + 22 - 22 - 20))).
+  assert (HZ : zlen Z0 = 20 - zlen x) by (unfold Z0; rewrite zlen_zeros; lia).
+  rewrite seq_end by (rewrite !zlen_app, HZ, HE; lia).
+  rewrite app_assoc. rewrite zdrop_exact_n by (rewrite zlen_app, HZ; lia).
+  unfold E, eocd_of.
+  sfield apn_eocd_widths 0%nat. change (fd_end_sig_bad (A_EOCD_SIG mod 256 ^ 4)) with false. cbv iota.
+  sfield apn_eocd_widths 4%nat. sfield apn_eocd_widths 5%nat.
+  repeat sfield apn_eocd_widths 6%nat.
+  change (256 ^ 2) with 65536. change (256 ^ 4) with 4294967296.
+  rewrite !Z.mod_small by lia. unfold fd_is_zip64.
+  replace (count =? 65535) with false by lia. replace (cdsize =? 4294967295) with false by lia. replace (cdoff =? 4294967295) with false by lia.
+  reflexivity.
 Qed.
